@@ -213,6 +213,12 @@ def build(ctx):
     g.trace('tr_SE3_inv', [('X', 'M44')], lambda X: E3(X).inv().A, sampler=lambda rng: [rnd_se3(rng)])
     g.trace('tr_SO2_mul', [('X', 'M22'), ('Y', 'M22')], lambda X, Y: (S2(X) * S2(Y)).A, sampler=lambda rng: [rnd_so2(rng), rnd_so2(rng)])
     g.trace('tr_SE2_mul', [('X', 'M33'), ('Y', 'M33')], lambda X, Y: (E2(X) * E2(Y)).A, sampler=lambda rng: [rnd_se2(rng), rnd_se2(rng)])
+    # SO2.inv / SE2.inv build their result with check=False since fix 1c511ed: traceable like the 3-D ones
+    g.trace('tr_SO2_inv', [('X', 'M22')], lambda X: S2(X).inv().A, sampler=lambda rng: [rnd_so2(rng)])
+    g.trace('tr_SO2_div', [('X', 'M22'), ('Y', 'M22')], lambda X, Y: (S2(X) / S2(Y)).A, sampler=lambda rng: [rnd_so2(rng), rnd_so2(rng)])
+    with concolic.object_alloc():
+        g.trace('tr_SE2_inv', [('X', 'M33')], lambda X: E2(X).inv().A, sampler=lambda rng: [rnd_se2(rng)])
+        g.trace('tr_SE2_div', [('X', 'M33'), ('Y', 'M33')], lambda X, Y: (E2(X) / E2(Y)).A, sampler=lambda rng: [rnd_se2(rng), rnd_se2(rng)])
     for n in (0, 1, 2, 3):
         g.trace(f'tr_SO3_pow{n}', [('X', 'M33')], (lambda n: lambda X: (S3(X) ** n).A)(n), sampler=lambda rng: [rnd_so3(rng)], tol=1e-9)
         g.trace(f'tr_SE3_pow{n}', [('X', 'M44')], (lambda n: lambda X: (E3(X) ** n).A)(n), sampler=lambda rng: [rnd_se3(rng)], tol=1e-9)
@@ -506,6 +512,8 @@ class Oracle:
                 self.call(f'SE3.AngVec:{unit}', 'T3', lambda: SE3.AngVec(a, v, unit=unit).data, np.r_[a, v], multi=True)
                 self.call(f'UnitQuaternion.AngVec:{unit}', 'Q', lambda: UnitQuaternion.AngVec(a, v, unit=unit).data, np.r_[a, v], multi=True)
             # unit-free constructors
+            dd = np.r_[rand_unit(rng) * log_uniform(rng, 1e-9, 1e-1), rand_unit(rng) * log_uniform(rng, 1e-9, 1e-1)]
+            self.call('SE3.Delta', 'T3', lambda: SE3.Delta(dd).data, dd, multi=True)
             t3 = self.trans(3)
             self.call('transl', 'T3', lambda: base.transl(t3), t3)
             self.call('transl2', 'T2', lambda: base.transl2(t3[:2]), t3[:2])
@@ -572,16 +580,40 @@ class Oracle:
     def s_value(self):
         return float(self.rng.choice([0.0, 1.0, 1e-12, 1 - 1e-12] + [self.rng.uniform(0, 1) for _ in range(6)]))
 
-    def icall(self, site, kind, clsname, fn, operands, inputs, multi=False):
-        """like call(), but a raise is keyed by root cause (operands: list of (value, kind))"""
+    def icall(self, site, kind, clsname, fn, operands, inputs, multi=False, pair=None):
+        """like call(), but a raise is keyed by root cause (operands: list of (value, kind)); pair = (R0, R1): the two
+        rotation blocks a 3-D interpolation with start goes between (for the near-antipodal classification)"""
         try:
             v = fn()
         except Exception as ex:
             self.ctx.count('oracle:' + site)
             self.report_raise(clsname, 'interp', ex, kind, operands, {'site': site, 'inputs_hex': hexl(inputs)})
             return None
+        if pair is not None and self.antipodal_invalid(site, kind, list(v) if multi else [v], pair, inputs):
+            return None
         self.check(site, kind, v, inputs, multi)
         return v
+
+    def antipodal_invalid(self, site, kind, elems, pair, inputs):
+        """3-D interpolation between R0 and R1 goes through q0 = r2q(R0), q1 = r2q(R1) and slerp(q0, q1, s) WITHOUT shortest:
+        when both are (nearly) half-turns the two quaternions can come out with opposite signs (q0.q1 ~ -1), slerp then divides
+        by sin(theta) ~ 0 and the value is rounding noise.  Such an invalid value is reported under ONE root-cause key."""
+        worst = max([self.check_value(kind, e)[0] for e in elems] + [0.0])
+        if worst <= TOL:
+            return False
+        try:
+            d = float(np.dot(base.r2q(np.asarray(pair[0], dtype=float)), base.r2q(np.asarray(pair[1], dtype=float))))
+        except Exception:
+            return False
+        if d > -0.99:
+            return False
+        self.ctx.count('oracle:' + site)
+        self.ctx.fail('oracle:interp:near-antipodal-quaternions:invalid-value',
+                      f"{site}: interpolation between two nearly equal half-turn orientations returns an invalid value (residual {worst:.3g}): "
+                      f"r2q gives quaternions of opposite sign (q0.q1 = {d:.15g}) and trinterp calls slerp without shortest=True",
+                      {'site': site, 'inputs_hex': hexl(inputs), 'R0': np.asarray(pair[0], dtype=float).tolist(), 'R1': np.asarray(pair[1], dtype=float).tolist(),
+                       'q0_dot_q1': d, 'residual': worst})
+        return True
 
     def interpolation(self, N):
         rng = self.rng
@@ -607,30 +639,33 @@ class Oracle:
             # ---- 3-D poses: T1 = T0 * (rotation by th), translations up to 1e6
             T0 = np.eye(4)
             T0[:3, :3], T0[:3, 3] = rnd_so3(rng), self.trans(3)
+            if rng.random() < 0.1:
+                # start orientation a half-turn (or within 1e-12..1e-3 of one): r2q has scalar part ~ 0, its sign is fragile
+                T0[:3, :3] = rot_from_axis_angle(rand_unit(rng), math.pi - float(rng.choice([0.0, log_uniform(rng, 1e-12, 1e-3)])))
             T1 = np.eye(4)
             T1[:3, :3], T1[:3, 3] = T0[:3, :3] @ rot_from_axis_angle(ax, th), self.trans(3)
             Tn = np.eye(4)
             Tn[:3, :3], Tn[:3, 3] = rot_from_axis_angle(ax, th), self.trans(3)
             inp = np.r_[T0.flatten(), T1.flatten(), s]
             ops2 = [(T0, 'T3'), (T1, 'T3')]
-            self.icall('trinterp:se3:start', 'T3', 'base', lambda: base.trinterp(T0, T1, s), ops2, inp)
+            self.icall('trinterp:se3:start', 'T3', 'base', lambda: base.trinterp(T0, T1, s), ops2, inp, pair=(T0[:3, :3], T1[:3, :3]))
             self.icall('trinterp:se3', 'T3', 'base', lambda: base.trinterp(None, Tn, s), [(Tn, 'T3')], np.r_[Tn.flatten(), s])
             X0, X1, Xn = SE3(T0, check=False), SE3(T1, check=False), SE3(Tn, check=False)
-            self.icall('SE3.interp:start', 'T3', 'SE3', lambda: interp_checked(X1, s, X0).data, ops2, inp, multi=True)
+            self.icall('SE3.interp:start', 'T3', 'SE3', lambda: interp_checked(X1, s, X0).data, ops2, inp, multi=True, pair=(T0[:3, :3], T1[:3, :3]))
             self.icall('SE3.interp', 'T3', 'SE3', lambda: interp_checked(Xn, s).data, [(Tn, 'T3')], np.r_[Tn.flatten(), s], multi=True)
-            self.icall('SE3.interp:vector-s:start', 'T3', 'SE3', lambda: interp_checked(X1, sv, X0).data, ops2, np.r_[inp, sv], multi=True)
+            self.icall('SE3.interp:vector-s:start', 'T3', 'SE3', lambda: interp_checked(X1, sv, X0).data, ops2, np.r_[inp, sv], multi=True, pair=(T0[:3, :3], T1[:3, :3]))
             self.icall('SE3.interp:vector-s', 'T3', 'SE3', lambda: interp_checked(Xn, sv).data, [(Tn, 'T3')], np.r_[Tn.flatten(), sv], multi=True)
             self.icall('SE3.interp:multi', 'T3', 'SE3', lambda: interp_checked(SE3([T1, Tn], check=False), s).data, ops2 + [(Tn, 'T3')], inp, multi=True)
             # ---- 3-D rotations (SO(3) case of trinterp, SO3.interp)
             R0, R1, Rn = T0[:3, :3], T1[:3, :3], Tn[:3, :3]
             ops3 = [(R0, 'R3'), (R1, 'R3')]
             inp3 = np.r_[R0.flatten(), R1.flatten(), s]
-            self.icall('trinterp:so3:start', 'R3', 'base', lambda: base.trinterp(R0, R1, s), ops3, inp3)
+            self.icall('trinterp:so3:start', 'R3', 'base', lambda: base.trinterp(R0, R1, s), ops3, inp3, pair=(R0, R1))
             self.icall('trinterp:so3', 'R3', 'base', lambda: base.trinterp(None, Rn, s), [(Rn, 'R3')], np.r_[Rn.flatten(), s])
             S0, S1, Sn = SO3(R0, check=False), SO3(R1, check=False), SO3(Rn, check=False)
-            self.icall('SO3.interp:start', 'R3', 'SO3', lambda: interp_checked(S1, s, S0).data, ops3, inp3, multi=True)
+            self.icall('SO3.interp:start', 'R3', 'SO3', lambda: interp_checked(S1, s, S0).data, ops3, inp3, multi=True, pair=(R0, R1))
             self.icall('SO3.interp', 'R3', 'SO3', lambda: interp_checked(Sn, s).data, [(Rn, 'R3')], np.r_[Rn.flatten(), s], multi=True)
-            self.icall('SO3.interp:vector-s:start', 'R3', 'SO3', lambda: interp_checked(S1, sv, S0).data, ops3, np.r_[inp3, sv], multi=True)
+            self.icall('SO3.interp:vector-s:start', 'R3', 'SO3', lambda: interp_checked(S1, sv, S0).data, ops3, np.r_[inp3, sv], multi=True, pair=(R0, R1))
             self.icall('SO3.interp:multi', 'R3', 'SO3', lambda: interp_checked(SO3([R1, Rn], check=False), s).data, ops3 + [(Rn, 'R3')], inp3, multi=True)
             # ---- 2-D poses
             a0 = gen_angle(rng)
@@ -659,20 +694,35 @@ class Oracle:
         if cls in (SO3, SE3, SE2, UnitQuaternion) and self.rng.random() < 0.25:
             # an interpolated value as a leaf: towards a nearby member (relative angle log-uniform), interior s
             th, s = self.rel_angle(), float(self.rng.uniform(0, 1))
+            kind = {SO3: 'R3', SE3: 'T3', SE2: 'T2'}.get(cls, 'Q')
             try:
                 if cls is SE3:
                     y = x * SE3.AngVec(th, rand_unit(self.rng))
-                    return interp_checked(y, s, x)
-                if cls is SO3:
+                    z = interp_checked(y, s, x)
+                elif cls is SO3:
                     y = x * SO3.AngVec(th, rand_unit(self.rng))
-                    return interp_checked(y, s, x)
-                if cls is SE2:
+                    z = interp_checked(y, s, x)
+                elif cls is SE2:
                     y = x * SE2(0, 0, th)
-                    return interp_checked(y, s, x)
-                y = x * UnitQuaternion.EulerVec(rand_unit(self.rng) * th)
-                return x.interp(s, dest=y, shortest=True)
+                    z = interp_checked(y, s, x)
+                else:
+                    y = x * UnitQuaternion.EulerVec(rand_unit(self.rng) * th)
+                    z = x.interp(s, dest=y, shortest=True)
             except Exception:
                 return x      # raises of interp on valid operands are searched (and keyed) by interpolation()
+            # the trees are built over VALID leaves: an invalid interpolated value is reported here, under the interpolation keys
+            site = f'{cls.__name__}.interp:leaf'
+            pair = (x.A[:3, :3], y.A[:3, :3]) if cls in (SO3, SE3) else None
+            if pair is not None and self.antipodal_invalid(site, kind, z.data, pair, np.r_[x.A.flatten(), y.A.flatten(), s]):
+                return x
+            rz = max(self.check_value(kind, e)[0] for e in z.data)
+            if rz > TOL:
+                self.check(site, kind, z.data, np.r_[np.asarray(x.A).flatten(), np.asarray(y.A).flatten(), s], multi=True)
+                return x
+            # a leaf of a tree must be a clean member (the constructors give <= 6e-15): an interpolated value that is valid
+            # to 1e-9 but carries 1e-12..1e-9 of drift (mild near-antipodal cases) would let a few well-conditioned operators
+            # push the tree over the tolerance without any operator being at fault
+            return z if rz <= 1e-12 else x
         return x
 
     def leaf0(self, cls):
